@@ -264,8 +264,7 @@ theorem empty_prefix_suffix_substr_match_nothing (c : Ctx) (e : Elem) (ns name :
     (hop : op = .pre ∨ op = .suf ∨ op = .sub) (f : CaseFlag) :
     satAttr c e ns name (some ⟨op, [], f⟩) = false := by
   unfold satAttr
-  rcases hop with rfl | rfl | rfl <;>
-    cases matchAttributeName c e name ns <;> simp [valTest]
+  rcases hop with rfl | rfl | rfl <;> simp [valTest]
 
 /-- Model side, through `match_eq_sat`: a compound containing such an attribute selector matches
     no element, whatever else it contains. -/
